@@ -41,11 +41,15 @@ func template(tag string, d, w int, top bool) MalType {
 		nk = 7
 	}
 	k := vrt.Concrete(vrt.Choice(tag+"/k", nk))
+	if k == 0 && !top && vrt.Bool(tag+"/marker") {
+		// a vector that merely *contains* a marker symbol as its first element is literal data
+		return Vector{Val: []MalType{sym(lib.Pick(tag+"/mk", []string{"splice-unquote", "unquote", "quasiquote"})), sym("s0")}}
+	}
 	switch k {
 	case 0:
 		return vrt.IntRange(tag+"/i", 0, 9)
 	case 1:
-		return sym(lib.Pick(tag+"/s", []string{"zz", "s0", "unquote"})) // symbols are returned literally
+		return sym(lib.Pick(tag+"/s", []string{"zz", "s0", "unquote", "splice-unquote"})) // symbols are returned literally
 	case 2:
 		return lst(sym("unquote"), unquoted(tag+"/u"))
 	case 3:
@@ -66,7 +70,7 @@ func template(tag string, d, w int, top bool) MalType {
 			// a list template whose first element is the symbol unquote / splice-unquote /
 			// quasiquote is a different construct: keep plain lists plain
 			if s, ok := elems[0].(Symbol); ok {
-				vrt.Assume(s.Val != "unquote")
+				vrt.Assume(s.Val != "unquote" && s.Val != "splice-unquote")
 			}
 		}
 		return List{Val: elems}
